@@ -399,11 +399,14 @@ pub fn shrink(cfg: &RunCfg, ops: &[Op], mode: &str, prop: &str, clause: &str) ->
         e.viol.iter().any(|v| v.prop == prop && v.clause == clause)
     };
     let mut cur: Vec<Op> = ops.to_vec();
+    let t0 = std::time::Instant::now();
     if !has(&cur) {
         return cur;
     }
+    // long-history runs: one execution may take seconds, so the budget is also bounded in time
+    let per_exec = t0.elapsed().as_secs_f64().max(0.0005);
     let mut chunk = (cur.len() / 2).max(1);
-    let mut budget = 400;
+    let mut budget: i64 = (400.0f64).min(90.0 / per_exec).max(8.0) as i64;
     loop {
         let mut i = 0;
         let mut progressed = false;
@@ -419,7 +422,7 @@ pub fn shrink(cfg: &RunCfg, ops: &[Op], mode: &str, prop: &str, clause: &str) ->
                 i = end;
             }
         }
-        if budget == 0 {
+        if budget <= 0 {
             break;
         }
         if chunk == 1 && !progressed {
@@ -429,9 +432,30 @@ pub fn shrink(cfg: &RunCfg, ops: &[Op], mode: &str, prop: &str, clause: &str) ->
             chunk = (chunk / 2).max(1);
         }
     }
+    // burst counts towards small values (halving)
+    for k in 0..cur.len() {
+        loop {
+            if budget <= 0 {
+                break;
+            }
+            let cand_op = match cur[k] {
+                Op::GarbageBurst { node, count, len, seed } if count > 1 => Op::GarbageBurst { node, count: count / 2, len, seed },
+                Op::TrafficBurst { node, count, plen } if count > 1 => Op::TrafficBurst { node, count: count / 2, plen },
+                _ => break,
+            };
+            let mut cand = cur.clone();
+            cand[k] = cand_op;
+            budget -= 1;
+            if has(&cand) {
+                cur = cand;
+            } else {
+                break;
+            }
+        }
+    }
     // argument shrinking: payload lengths towards small values
     for k in 0..cur.len() {
-        if budget == 0 {
+        if budget <= 0 {
             break;
         }
         if let Op::Write { node, plen, pseed, buf, nonce } = cur[k] {
@@ -466,7 +490,7 @@ pub fn shrink_cfg(cfg: &RunCfg, ops: &[Op], mode: &str, prop: &str, clause: &str
     let mut cur_ops = ops.to_vec();
     let node_of = |op: &Op| -> Option<u8> {
         match op {
-            Op::Write { node, .. } | Op::Read { node, .. } | Op::SetPsk { node, .. } | Op::Convert { node, .. } | Op::SetRecvNonce { node, .. } | Op::SetSendNonce { node, .. } | Op::Rekey { node, .. } | Op::Drop { node, .. } | Op::Dup { node, .. } | Op::Delay { node, .. } | Op::Query { node } | Op::Keygen { node } => Some(*node),
+            Op::Write { node, .. } | Op::Read { node, .. } | Op::SetPsk { node, .. } | Op::Convert { node, .. } | Op::SetRecvNonce { node, .. } | Op::SetSendNonce { node, .. } | Op::Rekey { node, .. } | Op::Drop { node, .. } | Op::Dup { node, .. } | Op::Delay { node, .. } | Op::Query { node } | Op::Keygen { node } | Op::GarbageBurst { node, .. } | Op::TrafficBurst { node, .. } => Some(*node),
             Op::Epilogue => None,
         }
     };
